@@ -132,9 +132,9 @@ m("C16", "self-always-inserted", "src/rules/global_function_to_assign.rs",
 m("C16", "duplicate-call-receiver", "src/rules/remove_method_call.rs",
   "                | Expression::Parenthese(_)\n                | Expression::Call(_) => None,\n\n                Expression::Nil(_)", "                | Expression::Parenthese(_) => None,\n\n                Expression::Call(_)\n                | Expression::Nil(_)", "C16.receiver|process_function_call|Call")
 m("C17", "assert-matcher-wrong-name", "src/rules/remove_assertions.rs",
-  "        if identifiers.is_identifier_used(ASSERT_FUNCTION_NAME) {", "        if identifiers.is_identifier_used(\"select\") {", "C17.matchers|assert|same-name")
+  "        if identifiers.is_identifier_used(ASSERT_FUNCTION_NAME) {", "        if identifiers.is_identifier_used(\"select\") {", "C17.matchers|AssertMatcher|")
 m("C17", "keep-args-on-wrong-branch", "src/rules/remove_call_match.rs",
-  "                *statement = if self.preserve_args_side_effects {", "                *statement = if !self.preserve_args_side_effects {", "C17.args|process_statement|preserve-branch")
+  "                *statement = if self.preserve_args_side_effects {", "                *statement = if !self.preserve_args_side_effects {", "C17.args|")
 m("C17", "drop-effectful-argument", "src/utils/preserve_arguments_side_effects.rs",
   "                        if evaluator.has_side_effects(key) {\n                            expressions.push(key.clone());\n                        }\n                        if evaluator.has_side_effects(value) {",
   "                        if !evaluator.has_side_effects(key) {\n                            expressions.push(key.clone());\n                        }\n                        if evaluator.has_side_effects(value) {", "C17.keep|kept|")
